@@ -485,7 +485,11 @@ def run_desc_probe(cur, op, alts, typecodes, S):
         a = op['a'] if op['a'] is not None else 0
         a = a % 7 if p == 'index' else -1 - (abs(a) % 7)
         got = entry[a]
-        return ('ok',) if got == exp7[a] and (got is None) == (exp7[a] is None) else ('bad', repr(got), repr(exp7[a]))
+        if got == exp7[a] and (got is None) == (exp7[a] is None):
+            return ('ok',)
+        # type codes are per-process hashes: never put them into the log
+        show = (lambda v: 'type_code' if (a % 7 == 1 and v is not None) else repr(v))
+        return ('bad', f'entry[{a}] = {show(got)}', f'entry[{a}] = {show(exp7[a])}')
     if p == 'oob':
         for idx in (7, -8, 100):
             try:
